@@ -110,17 +110,35 @@ namespace
     };
     // copyable handle onto allocator state kept elsewhere, declared a *shared* allocator: std_allocator
     // stores a copy; two handles are interchangeable exactly if they name the same owner
+    // (moving a handle transfers it, like a handle holding a shared_ptr to its state: the library
+    // copies allocator references even where the container moves, so a moved-from container keeps
+    // a valid allocator - an allocator's value must survive being moved from)
+    bool g_emptied_handle_used = false;
     class CHandle
     {
     public:
         using is_stateful = std::true_type;
         explicit CHandle(int owner) : owner_(owner) {}
+        CHandle(const CHandle&)            = default;
+        CHandle& operator=(const CHandle&) = default;
+        CHandle(CHandle&& o) noexcept : owner_(o.owner_)
+        {
+            o.owner_ = -1;
+        }
+        CHandle& operator=(CHandle&& o) noexcept
+        {
+            owner_   = o.owner_;
+            o.owner_ = -1;
+            return *this;
+        }
         void* allocate_node(std::size_t size, std::size_t align)
         {
+            g_emptied_handle_used |= owner_ < 0;
             return Slab::get().allocate(owner_, false, 1, size, align);
         }
         void* allocate_array(std::size_t count, std::size_t size, std::size_t align)
         {
+            g_emptied_handle_used |= owner_ < 0;
             return Slab::get().allocate(owner_, true, count, size, align);
         }
         void deallocate_node(void* p, std::size_t size, std::size_t align) noexcept
@@ -364,6 +382,7 @@ namespace
         ci.subject = name;
         auto P = [&](size_t i) { return i < p.params.size() ? p.params[i] : 0u; };
         bool allow_known = vf::allow_known("F19");
+        g_emptied_handle_used = false;
         CLeaf A(41), B(42);
         auto  bind = [&](unsigned which) -> CLeaf&
         {
@@ -530,6 +549,9 @@ namespace
             }
             if (Slab::get().last_error())
                 f("wrong-allocator", std::string(Slab::get().last_error()) + " (after " + names[op.kind] + ")");
+            if (g_emptied_handle_used)
+                f("moved-from-allocator-unusable", std::string("a container allocated through an allocator handle that had "
+                                                               "been moved away from it (after ") + names[op.kind] + ")");
             if (!f.failed)
             {
                 same_contents(i, names[op.kind]);
